@@ -441,13 +441,11 @@ pub fn scheme<S: RefOps>(rec: &mut Rec, w: Width) {
                 n_ops += 1;
             }
             if S::BOUNDS {
+                // every bound from 0 to one past the key's range: trimmed bounds, bounds in the gaps between
+                // them (never enforced by these keys) and bounds beyond the supported / maximum degree
                 let mut labels: Vec<Option<usize>> = vec![None];
-                if let Some(b) = &t.keys.cfg.bounds {
-                    labels.extend(b.iter().map(|x| Some(*x)));
-                }
-                if S::NAME == "IPA" {
-                    labels.extend([Some(1), Some(2), Some(3)]);
-                }
+                let top = if S::NAME == "IPA" { (t.keys.cfg.sup + 1).next_power_of_two() } else { t.keys.cfg.max + 1 };
+                labels.extend((0..=top).map(Some));
                 for l in labels {
                     if l == comms[i].degree_bound() {
                         continue;
